@@ -65,12 +65,14 @@ class C19(Prop):
                 yield {"k": "density", "rows": rows, "r": r}
                 if i % 60 == 0:
                     yield {"k": "sampledist", "rows": rows, "r": r, "M": 4000, "seed": sd + i}
+                    yield {"k": "sampledist", "rows": rows, "r": r, "M": 3000, "seed": sd + i + 1, "chunk": 1 + (i // 60) % 3}
         for i, (n, m) in enumerate(self.big):
             rows = ins_to_state(m)
             for r in range(n + 1):
                 yield {"k": "sample", "rows": rows, "r": r, "L": 12, "seed": sd + 31 * i + r}
                 yield {"k": "density", "rows": rows, "r": r}
             yield {"k": "sampledist", "rows": rows, "r": max(0, n - 3), "M": 6000, "seed": sd + i}
+            yield {"k": "sampledist", "rows": rows, "r": max(0, n - 2), "M": 3000, "seed": sd + i + 7, "chunk": 1 + i % 3, "pkg": "py"}
         # wide product states: N - r up to 10
         for n in (8, 9, 10):
             rows = [[3 if j == i else 0 for j in range(n)] + [2 * ((i + n) % 2)] for i in range(n)] + \
@@ -121,7 +123,16 @@ class C19(Prop):
                 S = be.state(scn["rows"], scn["r"])
                 be.seed(scn["seed"])
                 counts = {}
-                for w in be.p_list(S.sample(scn["M"])):
+                ch = scn.get("chunk")
+                if ch:
+                    # many small calls instead of one bulk call (the law must not depend on how many are asked for at once)
+                    drawn = []
+                    for _ in range(scn["M"] // ch):
+                        drawn += be.p_list(S.sample(ch))
+                    rec["chunk"] = ch
+                else:
+                    drawn = be.p_list(S.sample(scn["M"]))
+                for w in drawn:
                     counts[tuple(w)] = counts.get(tuple(w), 0) + 1
                 n = len(scn["rows"]) // 2
                 expect = 2 ** (n - scn["r"])
